@@ -68,6 +68,58 @@ func (purityStream) Generate(rng *rand.Rand, tier string, emit func(Case)) {
 		nj, _ := json.Marshal(nodes)
 		emit(Case{"op": "purity", "nodesjson": string(nj), "h1": h1, "h2": h2, "mode": []string{"inject", "deviceapply", "specapply"}[rng.Intn(3)]})
 	}
+	// whole-Spec image: a Spec with edits of every kind at Spec and device level, injected several times
+	// into OCI specs of different process users; the cache image must not change and every injection
+	// must equal the same injection on a fresh cache
+	for i := 0; i < n/2; i++ {
+		sp := &specs.Spec{Version: specs.CurrentVersion, Kind: "vendor.com/class"}
+		if rng.Intn(2) == 0 {
+			sp.ContainerEdits.IntelRdt = &specs.IntelRdt{ClosID: "spec", L3CacheSchema: "L3:0=f"}
+		}
+		if rng.Intn(2) == 0 {
+			sp.ContainerEdits.Env = []string{"SPEC=1"}
+			sp.ContainerEdits.Hooks = []*specs.Hook{{HookName: "prestart", Path: "/bin/spec"}}
+		}
+		if rng.Intn(3) == 0 {
+			sp.ContainerEdits.DeviceNodes = []*specs.DeviceNode{{Path: "/dev/specnode", Type: "c", Major: 5, Minor: 1}}
+		}
+		for d := 0; d < 3; d++ {
+			e := specs.ContainerEdits{Env: []string{fmt.Sprintf("DEV%d=1", d)}}
+			if rng.Intn(2) == 0 {
+				e.IntelRdt = &specs.IntelRdt{ClosID: fmt.Sprintf("dev%d", d), MemBwSchema: "MB:0=10", EnableCMT: d%2 == 0}
+			}
+			if rng.Intn(2) == 0 {
+				nd := &specs.DeviceNode{Path: fmt.Sprintf("/dev/node%d", d), Type: "c", Major: int64(10 + d), Minor: 0}
+				switch rng.Intn(4) {
+				case 0:
+					nd.UID = u32p(7)
+				case 1:
+					nd.GID = u32p(8)
+				case 2:
+					nd.Permissions = "rw"
+				}
+				e.DeviceNodes = []*specs.DeviceNode{nd}
+			}
+			if rng.Intn(3) == 0 {
+				e.Mounts = []*specs.Mount{{HostPath: "/h", ContainerPath: fmt.Sprintf("/c%d", d), Options: []string{"ro"}}}
+				e.AdditionalGIDs = []uint32{uint32(100 + d)}
+			}
+			if rng.Intn(3) == 0 {
+				e.Hooks = []*specs.Hook{{HookName: "poststop", Path: fmt.Sprintf("/bin/dev%d", d), Args: []string{"x"}, Env: []string{"H=1"}}}
+			}
+			sp.Devices = append(sp.Devices, specs.Device{Name: fmt.Sprintf("d%d", d), ContainerEdits: e})
+		}
+		var seq []any
+		for k := 2 + rng.Intn(3); k > 0; k-- {
+			var devs []any
+			for _, d := range rng.Perm(3)[:1+rng.Intn(3)] {
+				devs = append(devs, fmt.Sprintf("vendor.com/class=d%d", d))
+			}
+			seq = append(seq, map[string]any{"devs": devs, "uid": []int{0, 1000, 2000}[rng.Intn(3)], "gid": []int{0, 1000, 2000}[rng.Intn(3)], "process": rng.Intn(5) > 0})
+		}
+		sj, _ := json.Marshal(sp)
+		emit(Case{"op": "image", "specjson": string(sj), "seq": seq})
+	}
 }
 
 func kindIdx(v any) int {
@@ -116,6 +168,22 @@ func nodesProto(l []*specs.DeviceNode) []any {
 	return e["deviceNodes"].([]any)
 }
 
+func cacheSpecImage(cache *cdi.Cache) string {
+	var parts []any
+	for _, v := range cache.ListVendors() {
+		for _, sp := range cache.GetVendorSpecs(v) {
+			parts = append(parts, specToProto(sp.Spec))
+		}
+	}
+	for _, q := range cache.ListDevices() {
+		if d := cache.GetDevice(q); d != nil {
+			parts = append(parts, editsToProto(&d.ContainerEdits))
+		}
+	}
+	b, _ := json.Marshal(parts)
+	return string(b)
+}
+
 func (purityStream) Execute(c Case) {
 	obs := map[string]any{"panic": false, "filled1": nil, "filled2": nil, "cacheafter": []any{}, "writeback": false}
 	c["obs"] = obs
@@ -123,6 +191,51 @@ func (purityStream) Execute(c Case) {
 	defer os.RemoveAll(purityRoot)
 	specDir := filepath.Join(purityRoot, "cdi")
 	_ = os.MkdirAll(specDir, 0o755)
+	if c["op"] == "image" {
+		obs = map[string]any{"panic": false, "cacheunchanged": false, "repeatable": true, "writeback": false, "injections": 0}
+		c["obs"] = obs
+		defer func() {
+			if r := recover(); r != nil {
+				obs["panic"] = true
+			}
+		}()
+		_ = os.WriteFile(filepath.Join(specDir, "s.json"), []byte(c["specjson"].(string)), 0o644)
+		cache, _ := cdi.NewCache(cdi.WithSpecDirs(specDir), cdi.WithAutoRefresh(false))
+		before := cacheSpecImage(cache)
+		seq, _ := c["seq"].([]any)
+		n := 0
+		for _, st := range seq {
+			m, _ := st.(map[string]any)
+			var devs []string
+			for _, d := range m["devs"].([]any) {
+				devs = append(devs, d.(string))
+			}
+			mk := func() *oci.Spec {
+				o := &oci.Spec{Version: "1.0.2"}
+				if p, _ := m["process"].(bool); p {
+					o.Process = &oci.Process{User: oci.User{UID: uint32(kindIdx(m["uid"])), GID: uint32(kindIdx(m["gid"]))}}
+				}
+				return o
+			}
+			o1, o2 := mk(), mk()
+			_, e1 := cache.InjectDevices(o1, devs...)
+			fresh, _ := cdi.NewCache(cdi.WithSpecDirs(specDir), cdi.WithAutoRefresh(false))
+			_, e2 := fresh.InjectDevices(o2, devs...)
+			if (e1 == nil) != (e2 == nil) || jsonImage(o1) != jsonImage(o2) {
+				obs["repeatable"] = false
+				obs["diverged"] = fmt.Sprintf("step %d: %s vs fresh %s", n, jsonImage(o1), jsonImage(o2))
+			}
+			if e1 == nil {
+				n++
+			}
+		}
+		obs["injections"] = n
+		obs["cacheunchanged"] = cacheSpecImage(cache) == before
+		if ss := cache.GetVendorSpecs("vendor.com"); len(ss) == 1 {
+			obs["writeback"] = cache.WriteSpec(ss[0].Spec, "writeback.json") == nil
+		}
+		return
+	}
 	var pns []purityNode
 	_ = json.Unmarshal([]byte(c["nodesjson"].(string)), &pns)
 	h1, _ := c["h1"].(map[string]any)
